@@ -214,6 +214,13 @@ def generate(repo, cfg_inc):
         text, info = translate(gn[stub], stub)
         out += [f"/-- guard of `{fname}` as written: `{conds[stub][1]}` -/", text]
         meta[stub] = conds[stub][1]
+    # growth constants of s_byte_buf_init_from_file_impl, evaluated by clang in the scope of source/file.c
+    from . import log_gen
+    fc = log_gen.constants(os.path.join(repo, "source", "file.c"), ["MIN_BUFFER_GROWTH_READING_FILES", "MAX_BUFFER_GROWTH_READING_FILES"],
+                           inc + ["-D_POSIX_C_SOURCE=200809L", "-D_XOPEN_SOURCE=500"])
+    for k, v in fc.items():
+        out.append(f"def {k} : Nat := {v}")
+    out.append("")
     out.append("end AwsVerif.Gen.ByteBufFns\n")
     return "\n".join(out), meta
 
